@@ -49,6 +49,7 @@ var Classes = []string{
 	"way-key-oor", "way-val-oor", "way-keys-longer", "way-usersid-oor", "way-lats-longer",
 	"rel-key-oor", "rel-usersid-oor", "rel-role-oor", "rel-roles-longer", "rel-memids-shorter",
 	"stringtable-missing", "payload-truncated", "payload-garbage",
+	"group-plain-nodes",
 }
 
 // Tolerated lists malformations the property does not name (a surplus column entry the decoder may ignore);
@@ -188,6 +189,11 @@ func damage(b *pbfw.Block, class string) bool {
 		r.MemIDs = r.MemIDs[:1]
 	case "rel-type-invalid":
 		r.Types = []int32{0, 7}
+	case "group-plain-nodes":
+		// valid PBF the library does not support (plain Node messages instead of DenseNodes): "unsupported in a way the
+		// format lets a reader detect" -- the scan must end with an error after the intact blocks, not kill the process
+		b.Groups = append(b.Groups, pbfw.Group{Nodes: []pbfw.Node{{ID: 7, Keys: []uint32{1}, Vals: []uint32{2}, Lat: 100, Lon: 300,
+			Info: &pbfw.Info{Version: pbfw.I32(1), UserSID: pbfw.U32(3)}}}})
 	case "stringtable-missing":
 		b.OmitStringTable = true
 	case "payload-truncated":
